@@ -14,7 +14,7 @@ POS, NONNEG, ANY = "POS", "NONNEG", "ANY"
 POS_FUNCS = {"exp", "softplus", "sigmoid", "softmax", "ones_like", "cosh"}
 NONNEG_FUNCS = {"abs", "relu", "square", "sqrt_", "norm"}
 POSITIVE_HYPER = {"min_bin_width", "min_bin_height", "min_derivative", "eps", "self.eps", "self._epsilon", "self.epsilon", "tail_bound", "self.momentum", "beta", "quadratic_threshold"}
-TRANSPARENT = {"gather", "expand", "expand_as", "view", "reshape", "unsqueeze", "squeeze", "contiguous", "clone", "detach", "float", "double", "to", "t", "permute", "transpose", "pad_pos", "cumsum", "sum", "mean", "sum_except_batch", "repeat", "new_tensor"}
+TRANSPARENT = {"gather", "expand", "expand_as", "view", "reshape", "unsqueeze", "squeeze", "contiguous", "clone", "detach", "float", "double", "to", "t", "permute", "transpose", "pad_pos", "cumsum", "sum", "mean", "sum_except_batch", "repeat", "new_tensor", "prod", "cumprod"}
 
 
 def _mul(a, b):
